@@ -210,6 +210,7 @@ class Ctx:
         self.trusted = []
         self.notes = []
         self.oracle_stats = {}
+        self.transients = []
         self.checker_cmd = ''
         kf = json.load(open(os.path.join(VERIF, 'known_findings.json')))
         self.known = [k for k in kf.get('known', []) if k['property'] == pid]
@@ -388,6 +389,14 @@ class Ctx:
         """a concrete failing input on the real code. key identifies the defect class for
         matching against known_findings.json (exact string match against entry['key'])."""
         self.hits.append((key, what, data))
+        if len(self.hits) <= 5:
+            # the log of a run must say what failed even when the replay file is not at hand
+            self.log('%s [%s]: %s' % ('known finding seen' if any(k['key'] == key for k in self.known) else 'failing input', key, ' '.join(str(what).split())[:700]))
+
+    def transient(self, key, what, data, tries):
+        """a mismatch on a real child that did not fail again when the very same session was replayed [tries] times: recorded, not reported"""
+        self.transients.append({'key': key, 'what': str(what)[:1500], 'data': data, 'replays_without_failure': tries})
+        self.log('transient [%s], did not fail again in %d replay(s) of the same input, not reported: %s' % (key, tries, ' '.join(str(what).split())[:500]))
 
     def finish(self, level='proof', rule='', extra=None):
         new_hits = []
@@ -428,7 +437,7 @@ class Ctx:
             'model_regenerated': self.gen_hashes,
             'evaluations': self.evaluations, 'distinct_nontrivial': len(self.distinct),
             'rule': rule, 'samples': self.samples[:12] or [{'note': 'no correspondence cases in this run'}],
-            'correspondence_jobs': self.jobs, 'direct_oracle': self.oracle_stats,
+            'correspondence_jobs': self.jobs, 'direct_oracle': dict(self.oracle_stats, unconfirmed_transients=self.transients) if self.transients else self.oracle_stats,
             'known_findings_replayed': sorted(seen_known),
             'proof_broken': [p[0] for p in self.proof_broken], 'correspondence_broken': len(self.corr_broken),
         }
